@@ -31,11 +31,11 @@ class CallMixin(object):
                 if n in ('all', 'any') and node.args and isinstance(node.args[0], ast.GeneratorExp):
                     return self.quantifier(node.args[0], st, n == 'all')
                 if n == 'implies':
-                    a = self.truth(st, self.ev(node.args[0], st))
-                    b = self.truth(st, self.ev(node.args[1], st))
+                    a = self.ev_truth(node.args[0], st)
+                    b = self.ev_truth(node.args[1], st)
                     return mk_bool(z3.Implies(a, b))
                 if n == 'ite':
-                    return ite(self.truth(st, self.ev(node.args[0], st)), self.ev(node.args[1], st), self.ev(node.args[2], st))
+                    return ite(self.ev_truth(node.args[0], st), self.ev(node.args[1], st), self.ev(node.args[2], st))
                 if n == 'unchanged':
                     return self.spec_unchanged(node, st)
                 if n == 'fresh':
@@ -301,6 +301,8 @@ class CallMixin(object):
         pre.old = None
         for name, v in ct.statics.items():
             env.setdefault(name, v)
+        for name, text in ct.lets.items():
+            env[name] = self.spec_eval(text, pre)
         in_spec = self.spec_mode > 0
         if in_spec and (ct.modifies):
             raise OutsideSubset('call of heap-modifying %s inside a specification' % ct.qual)
@@ -324,22 +326,23 @@ class CallMixin(object):
                 raise PyRaise(r.exc, st, 'call of ' + ct.qual)
             for w in whens:
                 st.assume(z3.Not(w))
-        elif ct.raises:
-            for w in whens:
-                st.assume(z3.Not(w))
+        guard = None
+        if ct.raises and in_spec:
+            # inside a specification the call is a term: its contract only speaks when no exceptional clause applies
+            guard = z3.Not(z3.Or(whens)) if len(whens) > 1 else z3.Not(whens[0])
         result = None
         if ct.returns is not None and not isinstance(ct.returns, PyVal):
             rs = SeqT(ct.yields) if ct.kind == 'generator' else ct.returns
             result = fresh(rs, 'res_' + ct.qual.split('.')[-1]) if rs != NONE else NONE_V
         elif ct.kind == 'generator':
             result = fresh(SeqT(ct.yields), 'gen_' + ct.qual.split('.')[-1])
-        self.apply_post(ct, ct.ensures, env, old, st, result, exceptional=False)
+        self.apply_post(ct, ct.ensures, env, old, st, result, exceptional=False, guard=guard)
         if result is None:
             return NONE_V
         self.assume_type_invariant(st, result)
         return result
 
-    def apply_post(self, ct, post, env, old, st, result, exceptional):
+    def apply_post(self, ct, post, env, old, st, result, exceptional, guard=None):
         # havoc what the callee may modify, then assume its postcondition
         only_unchanged = exceptional and list(post.values()) == ['unchanged()']
         if not only_unchanged:
@@ -379,7 +382,8 @@ class CallMixin(object):
             for lbl, text in post.items():
                 if text == 'unchanged()' and only_unchanged:
                     continue
-                st.assume(self.spec_bool(text, post_st))
+                f = self.spec_bool(text, post_st)
+                st.assume(f if guard is None else z3.Implies(guard, f))
         finally:
             self.spec_mode -= 1
         st.heap = post_st.heap
@@ -410,6 +414,8 @@ class CallMixin(object):
             return SV(INT, z3.Length(v.c['keys'])) if s.k is not None else mk_int(0)
         if isinstance(s, TupT):
             return mk_int(len(s.elems))
+        if is_ref(s) and self.reg.class_info(s.cls, 'dictfield'):
+            return self.bi_len([self.dict_of(st, v)], kwargs, st, node)
         if is_ref(s):
             n = self.len_of_ref(st)(v)
             if n is not None:
@@ -692,12 +698,19 @@ class CallMixin(object):
         return mk_bool(py_eq(args[0], NONE_V))
 
     def bi_seq_remove(self, args, kwargs, st, node):
-        """seq_remove(s, x): s without the first occurrence of x (s unchanged when absent)"""
+        """seq_remove(s, x): s without the first occurrence of x (s itself when x does not occur)"""
         s, x = args
-        xv = coerce(x, s.sort.elem).t
-        i = z3.IndexOf(s.t, z3.Unit(xv), 0)
-        n = z3.Length(s.t)
-        return SV(s.sort, z3.If(i < 0, s.t, z3.Concat(z3.Extract(s.t, 0, i), z3.Extract(s.t, i + 1, n - i - 1))))
+        if s.sort.elem is None:
+            return s
+        xv = coerce(x, s.sort.elem)
+        member = self.seq_contains(s, xv)
+        p = z3.Int(fresh_name('rp'))
+        j = z3.Int(fresh_name('rj'))
+        st.assume(z3.Implies(member, z3.And(0 <= p, p < z3.Length(s.t), nth(s.t, p) == xv.t,
+                                            z3.ForAll([j], z3.Implies(z3.And(0 <= j, j < p), nth(s.t, j) != xv.t)))))
+        st.assume(z3.Implies(z3.Not(member), p == -1))
+        r = self.seq_remove_at(st, s, p)
+        return SV(s.sort, z3.If(member, r.t, s.t))
 
     def bi_seq_index(self, args, kwargs, st, node):
         s, x = args
